@@ -213,6 +213,10 @@ def perturb(rng, env, w):
             e['PATH'] = '/usr/bin:/bin'
             labels.append('path-minimal')
     e['HOME'] = rng.choice([e.get('HOME', '/'), '/nonexistent', w.root])
+    if rng.random() < 0.12:
+        # started from a 32-bit shell (`linux32 make`): uname reports i686
+        e['BFGSIM_PERSONALITY'] = 'linux32'
+        labels.append('personality')
     return e, labels
 
 
@@ -413,6 +417,11 @@ def gen_scenario(seed, root, params):
                                            cwd)])
         kind = rng.choice(['regenerate', 'backend', 'env', 'env-u',
                            'run', 'run-I', 'downgrade', 'reload'])
+        if kind == 'downgrade' and 'BFGSIM_PERSONALITY' in amb:
+            # formats before v14 do not record the architecture: the
+            # upgrade can only take the current machine's
+            del amb['BFGSIM_PERSONALITY']
+            labels = [x for x in labels if x != 'personality']
         later.append({'kind': kind, 'ambient': amb, 'labels': labels,
                       'spell': rng.choice(['phys', 'link']),
                       'cwd': cwd, 'prog': prog,
